@@ -862,9 +862,9 @@ class Visitor(ast.NodeVisitor):
                     if kw is PLACEHOLDER:
                         return PLACEHOLDER
 
-                    # Python asks only for ``keys()`` and ``__getitem__`` of the mapping which is unpacked.
-                    for key in kw.keys():
-                        kwargs[key] = kw[key]
+                    # We let Python itself unpack the mapping: it asks a mapping for ``keys()`` and ``__getitem__``,
+                    # but reads the items of a ``dict`` (and of its sub-classes) directly.
+                    kwargs.update({**kw})
 
                 else:
                     kwargs[keyword.arg] = self.visit(node=keyword.value)
